@@ -58,9 +58,15 @@ def plan(tier, seed):
                                          "word+safeint", "companion",
                                          "safeint"] + ["status", "statusH",
                                                        "status+byte",
-                                                       "status"] * 2):
+                                                       "status"] * 2
+                                        + ["cycle", "cycle+companion",
+                                           "cycle+byte", "cycle"] * 2
+                                        + ["process", "process+uptime",
+                                           "uptime", "process+uptime+byte",
+                                           "process", "process+uptime",
+                                           "uptime", "process+uptime"]):
                 shards.append(dict(moving=moving, safe=safe, L=L,
-                                   first=first, variant=var))
+                                   first=first % 8, variant=var))
     return shards
 
 
@@ -98,9 +104,18 @@ def make(variant=""):
         other.coil = v2[SyncManager.OUT, 0]
         devs.append(other)
         valve.companion = (other, t2)
-    sg = SyncGroup(ec, devs)
-    sg.allocate()
-    sg.current_data = bytearray(max(64, sg.packet.size))
+    if "process" in variant:
+        # the sync group whose device variables live in shared memory; the
+        # subprocess is not started, its cycle (Device.update) is driven
+        # by hand like everywhere in this check
+        from ebpfcat.ebpfcat import ProcessSyncGroup
+        sg = ProcessSyncGroup(ec, devs)
+        sg.allocate()
+        sg._current_data = sg.ctx.Array("B", max(64, sg.packet.size))
+    else:
+        sg = SyncGroup(ec, devs)
+        sg.allocate()
+        sg.current_data = bytearray(max(64, sg.packet.size))
     # independent positions of the three bits in the frame
     a = sg.pdo_assign[t]
     pos = dict(open=(a[SyncManager.IN], 0), closed=(a[SyncManager.IN], 1),
@@ -114,6 +129,8 @@ def run_shard(params):
     clock = Clock()
     old = devices.monotonic
     devices.monotonic = clock
+    import logging
+    logging.disable(logging.WARNING)
     try:
         variant = params.get("variant", "")
         valve, sg, pos = make(variant)
@@ -152,14 +169,22 @@ def run_shard(params):
                     # group gets a new frame buffer, as a restarted group
                     # does (SyncGroup.start allocates current_data anew)
                     nhist += 1
-                    if nhist % 5 == 0:
+                    if nhist % 5 == 0 and "process" not in variant:
                         sg.current_data = bytearray(len(data))
                         data = sg.current_data
                         res.count("histories_after_a_buffer_change")
                     data[:] = bytes(len(data))
-                    valve.__dict__.pop("target", None)
-                    valve.__dict__.pop("error", None)
-                    clock.t = 1000.0
+                    if "process" in variant:
+                        # (the instance dict holds the variables' places in
+                        # the shared map there)
+                        valve.target = False
+                        valve.error = False
+                    else:
+                        valve.__dict__.pop("target", None)
+                        valve.__dict__.pop("error", None)
+                    # (a control PC that has been up for 120 days)
+                    clock.t = 10368000.0 + 0.1 * (nhist % 7) \
+                        if "uptime" in variant else 1000.0
                     valve.movingTime = moving
                     valve.reset()
                     if comp:
@@ -199,8 +224,23 @@ def run_shard(params):
                         err_before = bool(valve.error)
                         if comp:
                             data[cpos] = (data[cpos] & ~3) | 2   # closed
-                            comp[0].update()
-                        valve.update()
+                            if "cycle" not in variant:
+                                comp[0].update()
+                        if "cycle" in variant:
+                            # the way a received frame reaches the devices;
+                            # now and then a datagram comes back with a
+                            # wrong working counter (another terminal of the
+                            # datagram is off): the valve is looked after
+                            # all the same
+                            for pos_, cnt_ in sg.packet.counters.items():
+                                data[pos_] = cnt_ + (
+                                    1 if (nhist + stepno) % 3 == 0 else 0)
+                                data[pos_ + 1] = 0
+                            sg.wkc_errors = 0
+                            sg.update_devices(bytes(data))
+                            res.count("updates_through_update_devices")
+                        else:
+                            valve.update()
                         g_coil, g_target, g_error = (
                             getbit("coil"), bool(valve.target),
                             bool(valve.error))
@@ -255,6 +295,7 @@ def run_shard(params):
                                         final=(g_coil, g_target, g_error)))
     finally:
         devices.monotonic = old
+        logging.disable(logging.NOTSET)
     res.info["exhaustive"] = True
     return res
 
